@@ -170,6 +170,18 @@ claim('C17', 'DESIGN.md 4/C17',
       'specification level, each executed on the real class.',
       'Weakest fit of the technique (stateless); characteristic values sampled (2 / 5 sets); tolerance 1e-12.')
 
+claim('C01', 'DESIGN.md 4/C01',
+      'TLA+ spec PrismCore.tla (one cost evaluation as the sequence of the code statements in exact rational arithmetic; TLC: PrismEq, '
+      'SkIdentity, HSymmetric, GammaIsHMinusC, PipelineIsCost, a named deviation shown to violate them) with every instance replayed as one '
+      'wavenumber of a real PRISM object (omega via FromArray, C-hat via the potential of an MSA closure) against TLC rationals; TLA+ spec '
+      'PrismSolve.tla (what a solve reporting success may leave behind) with TLC-enumerated configuration x method x guess sampled and solved, '
+      'the stored arrays judged by an evaluator working from the user inputs only; prism.solve events of the repository tests and drivers '
+      'validated against Trace_PrismSolve.tla',
+      'The algebra stage pins site/pair density, product order, inverse and division independently of the cost function own arithmetic; the '
+      'solved stage decides the two statements on real converged objects with the bound the statement gives (solver residual x local slope).',
+      'Seeded instances rank 1-3; 24 (260) judged successful solves on 256-point dyadic grids, methods krylov/hybr (+df-sane, broyden1); '
+      'unconverged solves skipped; Martynov-Sarkisov excluded (recorded C09 finding).')
+
 ALL = ['C%02d' % i for i in range(1, 19)]
 
 
